@@ -6,32 +6,58 @@ H = 'harness/e2/c07_par.c'
 STUBS = ['libomp runtime (__kmpc_fork_call, dispatch_init/next, critical, ...): ONE worker executes each parallel region; dynamic-schedule iterations are run in every order (fork)',
          'shared FILE*: at every fread outside a critical section/flockfile another worker may have moved the stream to any offset the stream was ever at (one interference per path)',
          'stdio / mmap: in-memory model file system', 'cpuid: no SIMD features']
+WSTUB = ['two modelled OpenMP workers: dynamic hand-out of iterations; preemption points = iteration boundaries and accesses to bytes on which two iterations conflict (recording pass); at most one preemption per parallel region']
 MODES = {0: 'buffer', 1: 'stdio', 2: 'mmap'}
-CODECS = [('unc', 'CARQUET_COMPRESSION_UNCOMPRESSED'), ('snappy', 'CARQUET_COMPRESSION_SNAPPY')]
+CODECS = {'unc': 'CARQUET_COMPRESSION_UNCOMPRESSED', 'snappy': 'CARQUET_COMPRESSION_SNAPPY', 'lz4': 'CARQUET_COMPRESSION_LZ4'}
+OUTSIDE = ('outside: more than 3 projected columns in the iteration-order model (loops of 2..3 iterations are permuted), more than two workers / more than one preemption per parallel region in the worker model, '
+           'weak-memory reorderings, ZSTD/GZIP (contract stubs; the thread-local ZSTD contexts are not exercised), num_threads > 4')
+PROJ = ('all columns', 'projection by index (reversed)', 'projection by name (reversed)')
 
 
-def obligations(tier):
-    q = tier == 'quick'
-    o = []
-    for om in (1, 0, 2):
-        for cn, cd in CODECS:
-            o.append(E2('interleave/%s/%s' % (MODES[om], cn), H, defines=['-DMODE=1', '-DOPENMODE=%d' % om, '-DCODEC=' + cd], all_lib=True, openmp=True, timeout=1100, stubs=STUBS,
-                        fork_max=16, native_replay=True,
-                        bounds='2 REQUIRED columns x 2 pages of 3 rows (%s), batch_size 3, num_threads 1..3; every order of the per-column iterations of both OpenMP loops; '
-                               'one interfering seek at every unlocked fread of the shared stream (%s mode)' % (cn, MODES[om])))
-    # two modelled workers with preemption: data races between the per-column iterations of the parallel loops
-    for om in (0, 1, 2):
-        for nullable in (1, 0):
-            o.append(E2('workers/%s/%s' % (MODES[om], 'nullable' if nullable else 'required'), H,
-                        defines=['-DMODE=1', '-DOPENMODE=%d' % om, '-DTHREADS=2'] + (['-DNULLABLE'] if nullable else []), all_lib=True, openmp=True, timeout=1100, fork_max=16,
-                        stubs=STUBS + ['two modelled OpenMP workers: dynamic hand-out of iterations; preemption points = iteration boundaries and accesses to bytes on which two iterations conflict (recording pass); at most one preemption per path'],
-                        bounds='2 %s columns x 2 pages of 3 rows, batch_size 3, 2 workers, <= 1 preemption per parallel region path at every conflicting access (%s mode)' % ('OPTIONAL (different null patterns)' if nullable else 'REQUIRED', MODES[om])))
+def defs(spec, rows, nrg, page, flavour, codec, om, bs, proj, threads, model):
+    return ['-DVP_SPEC="%s"' % spec, '-DVP_ROWS=%d' % rows, '-DVP_NRG=%d' % nrg, '-DVP_BATCH=%d' % page, '-DVP_FLAVOUR=%d' % flavour, '-DCODEC=' + CODECS[codec],
+            '-DVP_OPEN=%d' % om, '-DVP_BS=%d' % bs, '-DVP_PROJ=%d' % proj, '-DVP_THREADS=%d' % threads, '-DVP_MODEL=%d' % model]
+
+
+def shape_nm(spec, rows, nrg, page, flavour, bs, proj):
+    return '%s/r%d-g%d-p%d-f%d/bs%d-proj%d' % (spec, rows, nrg, page, flavour, bs, proj)
+
+
+def shape_txt(spec, rows, nrg, page, flavour, codec, om, bs, proj):
+    return 'table %s (null pattern %d), %d rows in %d row group(s), pages of %d rows, %s, %s mode, batch_size %d, %s' % (spec, flavour & 7, rows, nrg, page, codec, MODES[om], bs, PROJ[proj])
+
+
+def interleave(spec, rows, nrg, page, flavour, codec, om, bs, proj=0, threads=0, timeout=1100, max_paths=300000):
+    return E2('interleave/%s/%s/%s/t%s' % (MODES[om], codec, shape_nm(spec, rows, nrg, page, flavour, bs, proj), threads or '1-4'), H,
+              defines=defs(spec, rows, nrg, page, flavour, codec, om, bs, proj, threads, 1), all_lib=True, openmp=True, timeout=timeout, stubs=STUBS, fork_max=16, max_paths=max_paths,
+              expect_paths_min=4,
+              bounds='%s, num_threads %s; every order of the per-column iterations of both OpenMP loops of every carquet_batch_reader_next call; one interfering seek at every unlocked fread of the shared stream; '
+                     'every call compared (status, batch boundaries, null bitmaps, values) with the num_threads=1 run of the same file; %s' % (
+                         shape_txt(spec, rows, nrg, page, flavour, codec, om, bs, proj), threads or '1..4 (choice)', OUTSIDE))
+
+
+def workers(spec, rows, nrg, page, flavour, codec, om, bs, proj=0, threads=2, timeout=1100):
+    return E2('workers/%s/%s/%s/t%d' % (MODES[om], codec, shape_nm(spec, rows, nrg, page, flavour, bs, proj), threads), H,
+              defines=defs(spec, rows, nrg, page, flavour, codec, om, bs, proj, threads, 2), all_lib=True, openmp=True, timeout=timeout, fork_max=16, stubs=STUBS + WSTUB, expect_paths_min=2,
+              bounds='%s, num_threads %d, 2 modelled workers, <= 1 preemption per parallel region at every iteration boundary and every conflicting access; every call compared with the num_threads=1 run; %s' % (
+                  shape_txt(spec, rows, nrg, page, flavour, codec, om, bs, proj), threads, OUTSIDE))
+
+
+def handles(spec, rows, nrg, page, flavour, codec, om, bs, proj=0, timeout=1100):
+    return E2('two-readers/%s/%s/%s' % (MODES[om], codec, shape_nm(spec, rows, nrg, page, flavour, bs, proj)), H,
+              defines=defs(spec, rows, nrg, page, flavour, codec, om, bs, proj, 2, 3), all_lib=True, openmp=True, timeout=timeout, fork_max=16, stubs=STUBS[2:], expect_paths_min=6,
+              bounds='%s; TWO independent readers on the same file, their carquet_batch_reader_next calls interleaved in every order (call granularity; finer interleavings of two handles are outside); '
+                     'each returns what a reader returns when used alone' % shape_txt(spec, rows, nrg, page, flavour, codec, om, bs, proj))
+
+
+def lazy_init(q):
     H2 = 'harness/e2/c07_init.c'
     ISTUBS = ['lazy-init race: globals restarted from every prefix of the initialiser\'s store sequence (x86-TSO visibility order); real hardware reordering / compiler reordering of plain stores not modelled',
               'cpuid: no SIMD features']
+    o = []
     # crc32: 2048 table stores + flag = 2049 stores: all prefixes near the ends and table boundaries, every 16th in between
-    for kb, ks, nk, tag in ([(0, 1, 24, 'first'), (2030, 1, 24, 'last'), (240, 1, 32, 'table-boundary'), (0, 64, 34, 'every64')] if q else
-                            [(0, 1, 64, 'first'), (1990, 1, 64, 'last'), (224, 1, 64, 'table-boundary-1'), (480, 1, 64, 'table-boundary-2'), (0, 16, 130, 'every16')]):
+    for kb, ks, nk, tag in [(0, 1, 64, 'first'), (1990, 1, 64, 'last'), (224, 1, 64, 'table-boundary-1'), (480, 1, 64, 'table-boundary-2'), (0, 16, 130, 'every16')] + \
+                           ([] if q else [(k, 1, 64, 'boundary-%d' % k) for k in (736, 992, 1248, 1504, 1760)] + [(o_, 16, 130, 'every16+%d' % o_) for o_ in (3, 7, 11)]):
         o.append(E2('lazy-init/crc32/%s' % tag, H2, defines=['-DWHICH=0', '-DKBASE=%d' % kb, '-DKSTEP=%d' % ks, '-DNK=%d' % nk], all_lib=True, timeout=900, stubs=ISTUBS,
                     bounds='carquet_crc32 first use; another thread k stores into crc32_init_tables for k = %d + %d*i, i < %d (of 2049 stores)' % (kb, ks, nk)))
     o.append(E2('lazy-init/dispatch', H2, defines=['-DWHICH=1', '-DKBASE=0', '-DKSTEP=1', '-DNK=80'], all_lib=True, timeout=900, stubs=ISTUBS,
@@ -39,3 +65,43 @@ def obligations(tier):
     o.append(E2('lazy-init/cpu-info', H2, defines=['-DWHICH=2', '-DKBASE=0', '-DKSTEP=1', '-DNK=64'], all_lib=True, timeout=900, stubs=ISTUBS,
                 bounds='carquet_get_cpu_info / carquet_init first use; another thread k stores into the initialiser for every k'))
     return o
+
+
+def legacy():
+    """the shapes of the first version of this check: 2 columns x 2 pages of 3 rows, batch_size 3"""
+    o = []
+    for om in (1, 0, 2):
+        for cn in ('unc', 'snappy'):
+            o.append(interleave('IL', 6, 1, 3, 0, cn, om, 3))
+    for om in (0, 1, 2):
+        o.append(workers('il', 6, 1, 3, 0, 'unc', om, 3))
+        o.append(workers('IL', 6, 1, 3, 0, 'unc', om, 3))
+    return o
+
+
+def obligations(tier):
+    q = tier == 'quick'
+    o = legacy()
+    CN = ('unc', 'snappy', 'lz4')
+    # (spec, rows, row groups, rows per page, flavour, batch size, projection)
+    TWO = [('is', 8, 2, 2, 0, 3, 0), ('Sb', 9, 1, 3, 1, 4, 0), ('xD', 10, 2, 2, 0, 5, 2), ('fl', 7, 1, 2, 1, 2, 1)]
+    THREE = [('ilS', 6, 1, 2, 0, 4, 0), ('BsD', 8, 2, 2, 0, 3, 0), ('sIx', 6, 2, 3, 1, 6, 0), ('IlsB', 8, 2, 2, 0, 3, 1)]
+    for om in (0, 1, 2):
+        for ci, cn in enumerate(CN):
+            for si, (spec, rows, nrg, page, fl, bs, pj) in enumerate(TWO):
+                if q and (si + om + ci) % 3: continue
+                o.append(interleave(spec, rows, nrg, page, fl, cn, om, bs, pj))
+                o.append(workers(spec, rows, nrg, page, fl, cn, om, bs, pj, threads=2 + (si + om) % 3))
+                o.append(handles(spec, rows, nrg, page, fl, cn, om, bs, pj))
+            for si, (spec, rows, nrg, page, fl, bs, pj) in enumerate(THREE):
+                if q and (si + om + ci) % 4: continue
+                o.append(interleave(spec, rows, nrg, page, fl, cn, om, bs, pj, threads=2 + (si + ci) % 3, timeout=1800))
+                o.append(workers(spec, rows, nrg, page, fl, cn, om, bs, pj, threads=2 + (si + om + ci) % 3, timeout=1800))
+                if not q: o.append(handles(spec, rows, nrg, page, fl, cn, om, bs, pj))
+    if not q:
+        # four projected columns: beyond the permutation model (sequential order only) but inside the two-worker model
+        for om in (0, 1, 2):
+            for cn in CN:
+                o.append(workers('IlsB', 8, 2, 2, 0, cn, om, 3, 0, threads=4, timeout=1800))
+                o.append(workers('bXdS', 6, 1, 2, 1, cn, om, 4, 0, threads=3, timeout=1800))
+    return o + lazy_init(q)
